@@ -4,8 +4,15 @@
  * Reference: LevelDB's owned file names (filename.cc comment):
  *   CURRENT | LOCK | LOG | LOG.old | MANIFEST-[0-9]+ | [0-9]+.(log|sst|ldb|dbtmp)
  * with the number a decimal uint64 (overflow => not a database file).
- * VP_MODE 1: digit-only strings of VP_N characters (19..21) to exercise the
- * uint64 overflow rejection of ldb_decode_int against a 128-bit reference. */
+ * VP_MODE 0: arbitrary characters; for VP_N > 7 restricted (assumption) to
+ *   strings whose leading digit run is <= 7 digits: proving that the decoder
+ *   does NOT report overflow on a long symbolic digit run is a decimal/binary
+ *   range argument that SAT does not finish (measured: 8 digits 60 s,
+ *   10 digits 250 s, 12 digits > 300 s).
+ * VP_MODE 1: uint64 boundary: concrete prefix "18446744073709551" (+"6" /
+ *   +"61" for VP_N 20 / 21) followed by 2 arbitrary characters, so that both
+ *   sides of 18446744073709551615 and the 21-digit case are decided.
+ * VP_MODE 2: all VP_N characters are digits (thorough tier, long digit runs). */
 #include "vp.h"
 #include "util/strutil.h"
 #include "util/slice.h"
@@ -30,21 +37,36 @@ vp_is(const char *s, size_t n, const char *lit, size_t ln) {
   return 1;
 }
 
-/* decimal prefix of s[pos..n): returns number of digits, value in *v,
- * *ovf set when the value does not fit 64 bits */
+/* decimal prefix of s[pos..n): returns number of digits, value (mod 2^64) in
+ * *v, *ovf set when the value does not fit 64 bits.  Overflow is decided on
+ * the digit string itself (no arithmetic): more than 20 significant digits,
+ * or 20 significant digits that compare above "18446744073709551615". */
 static size_t
 vp_ref_digits(const char *s, size_t n, size_t pos, uint64_t *v, int *ovf) {
+  static const char vp_max[21] = "18446744073709551615";
   uint64_t x = 0;
-  size_t k = 0;
-  *ovf = 0;
+  size_t k = 0, lead = 0, sig, i;
+  int cmp = 0;
   while (pos + k < n && s[pos + k] >= '0' && s[pos + k] <= '9') {
-    uint64_t d = (uint64_t)(s[pos + k] - '0');
-    if (x > (UINT64_MAX - d) / 10)
-      *ovf = 1;
-    x = x * 10 + d;
+    x = x * 10 + (uint64_t)(s[pos + k] - '0');
     k++;
   }
   *v = x;
+  *ovf = 0;
+  if (k >= 20) {
+    while (lead < k && s[pos + lead] == '0')
+      lead++;
+    sig = k - lead;
+    if (sig > 20) {
+      *ovf = 1;
+    } else if (sig == 20) {
+      for (i = 0; i < 20 && cmp == 0; i++) {
+        if (s[pos + lead + i] != vp_max[i])
+          cmp = s[pos + lead + i] < vp_max[i] ? -1 : 1;
+      }
+      *ovf = cmp > 0;
+    }
+  }
   return k;
 }
 
@@ -56,11 +78,26 @@ harness(void) {
   for (i = 0; i < VP_N; i++) {
     s[i] = (char)vp_u8();
     VP_ASSUME(s[i] != 0);
-#if VP_MODE == 1
+#if VP_MODE == 2
     VP_ASSUME(s[i] >= '0' && s[i] <= '9');
 #endif
   }
   s[VP_N] = 0;
+#if VP_MODE == 1
+  {
+    static const char vp_prefix[20] = "1844674407370955161";
+    for (i = 0; i + 2 < VP_N; i++)
+      s[i] = vp_prefix[i];
+  }
+#endif
+#if VP_MODE == 0 && VP_N > 7
+  {
+    size_t run = 0;
+    while (run < VP_N && s[run] >= '0' && s[run] <= '9')
+      run++;
+    VP_ASSUME(run <= 7);
+  }
+#endif
 
   {
     /* ldb_decode_int */
@@ -74,12 +111,12 @@ harness(void) {
     if (ok) {
       VP_ASSERT(z == rv, "decode_int value == reference");
       VP_ASSERT(p == s + k, "decode_int stops after the digits");
-#if VP_N >= 1 && !(VP_MODE == 1 && VP_N >= 21)
+#if VP_N >= 1
       VP_WITNESS("decode-int-accept");
 #endif
     } else {
       VP_ASSERT(p == s, "decode_int failure leaves the cursor");
-#if VP_MODE == 0 || VP_N >= 20
+#if VP_MODE == 0 || (VP_MODE == 1 && VP_N >= 20)
       VP_WITNESS("decode-int-reject");
 #endif
     }
